@@ -61,12 +61,22 @@ func (m *SigningProposalFSM) actionStartSigningProposal(inEvent fsm.Event, args 
 		return
 	}
 
+	// A batch id is used once per round. Anyone can append a copy of an earlier proposal to the
+	// board (the signature covers the data only): it must not start the batch again, on no node.
+	for _, used := range m.payload.SigningProposalPayload.UsedBatchIDs {
+		if used == request.BatchID {
+			err = fmt.Errorf("batch {%s} was already proposed in this round", request.BatchID)
+			return
+		}
+	}
+
 	payload, err := json.Marshal(request.SigningTasks)
 	if err != nil {
 		err = fmt.Errorf("failed to marshal messages to sign: %w", err)
 		return
 	}
 
+	m.payload.SigningProposalPayload.UsedBatchIDs = append(m.payload.SigningProposalPayload.UsedBatchIDs, request.BatchID)
 	m.payload.SigningProposalPayload.CreatedAt = request.CreatedAt
 	m.payload.SigningProposalPayload.BatchID = request.BatchID
 	m.payload.SigningProposalPayload.InitiatorId = request.ParticipantId
